@@ -1,10 +1,57 @@
 (* C13 - Any query gets a well-formed reply or none; the server never panics.
-   Only statements closed by [exact]; proofs are in Proofs/. *)
-From DnsV Require Import Base.Bytes Model.Store Model.LookupV1 Model.LookupV2 Model.Serve Proofs.Serve.
+   Only statements closed by [exact]; proofs are in Proofs/.
+   [serve b st q locr ecs max] is the model of ServeDNSWithRCODE (Model/Serve.v): backend, compiled
+   database as key -> rows, query, the location FindLocation returned, the ECS option to echo,
+   max-answer.  [wire_name n] = n is an uncompressed wire name (labels of 1..63 bytes, <= 255). *)
+From DnsV Require Import Base.Bytes Model.Store Model.LookupV1 Model.LookupV2 Model.Serve.
+From DnsV Require Import Proofs.Serve Proofs.NoPanic Proofs.Shape.
 Open Scope N_scope.
+
+(* CDB and RocksDB with v1 keys (the label-by-label reader): no panic and no fuel exhaustion
+   for EVERY store - even one with malformed rows, because ForEach recovers callback panics -
+   every client location, and every wire-valid query name *)
+Theorem C13_no_panic_v1 : forall b st q locr ecs max,
+  b <> RDB2 -> wire_name (q_name q) = true ->
+  serve b st q locr ecs max <> OPanic /\ serve b st q locr ecs max <> OFuel.
+Proof. exact serve_no_panic_v1. Qed.
+Print Assumptions C13_no_panic_v1.
 
 (* an unsupported EDNS version gets BADVERS whatever the database, client and backend *)
 Theorem C13_badvers : forall b st q locr ecs max v,
   q_edns q = Some v -> v <> 0 -> serve b st q locr ecs max = badvers_reply q.
 Proof. exact serve_badvers. Qed.
 Print Assumptions C13_badvers.
+
+(* every reply of all three backends carries the query's ID (the QR bit is set by SetReply on
+   every path and is not a field of the model's response) *)
+Theorem C13_reply_id : forall b st q locr ecs max x,
+  serve b st q locr ecs max = OReply x -> rs_id x = q_id q.
+Proof. exact serve_id. Qed.
+Print Assumptions C13_reply_id.
+
+(* "whatever is written has the query's question" is FALSE for the code as it is: the BADVERS
+   reply (built by coredns edns.Version) has an empty question section - finding F22 *)
+Theorem C13_reply_shape_refuted :
+  exists b st q locr ecs max x,
+    serve b st q locr ecs max = OReply x /\ rs_question x <> question_of q.
+Proof. exact reply_shape_refuted. Qed.
+Print Assumptions C13_reply_shape_refuted.
+
+(* outside that finding (no OPT, or EDNS version 0) every reply of all three backends echoes
+   ID and question *)
+Theorem C13_reply_shape_outside_finding : forall b st q locr ecs max x,
+  (q_edns q = None \/ q_edns q = Some 0) ->
+  serve b st q locr ecs max = OReply x -> rs_id x = q_id q /\ rs_question x = question_of q.
+Proof. exact serve_echoes. Qed.
+Print Assumptions C13_reply_shape_outside_finding.
+
+(* the hypotheses are satisfiable and the conclusion is not vacuous: a referral from a delegated root *)
+Example C13_example :
+  let st := [([0; 0; 0], [[0; 2; 61; 0; 0; 0; 60; 0; 0; 0; 0; 0; 0; 0; 0; 1; 97; 0]])] in
+  let q := mkQ 9 [1; 88; 0] 43 1 (Some 0) in
+  wire_name (q_name q) = true /\
+  serve CDB st q (LocOk [0; 0]) None 1 =
+    OReply (mkResp 9 (Some ([1; 88; 0], 43, 1)) 0 false []
+              [IRR (mkRR [0] 2 1 60 [1; 97; 0])] [] (Some None)).
+Proof. vm_compute. split; reflexivity. Qed.
+Print Assumptions C13_example.
